@@ -240,6 +240,9 @@ func rtFillValue(c *Ctx, m protoreflect.Message, depth int, o rtFillOpts) {
 		if c.Intn(6) == 0 {
 			s = []string{"NaN", "Infinity", "-Infinity", "1", "null", "true", "{}"}[c.Intn(7)]
 		}
+		if c.Intn(3) == 0 {
+			s = rtString(c)
+		}
 		if o.unrep && c.Intn(15) == 0 {
 			s = msgBadStrings[c.Intn(len(msgBadStrings))]
 		}
@@ -289,6 +292,7 @@ func rtFillListValue(c *Ctx, m protoreflect.Message, depth int, o rtFillOpts) {
 func rtAnyPool() []protoreflect.MessageType {
 	var out []protoreflect.MessageType
 	for _, n := range []string{
+		"pb2.Scalars", "pb3.Scalars", "google.protobuf.StringValue", "google.protobuf.Struct", "pb2.Nested", "pb3.Maps",
 		"pb2.Nested", "pb2.Scalars", "pb2.Enums", "pb2.KnownTypes", "pb2.PartialRequired", "pb2.Maps", "pb2.Extensions",
 		"pb3.Scalars", "pb3.Nests", "pb3.Maps", "pb3.Oneofs",
 		"goproto.proto.test.TestAllTypes.NestedMessage", "goproto.proto.test3.ForeignMessage",
@@ -333,10 +337,19 @@ func rtFillAny(c *Ctx, m protoreflect.Message, depth int, o rtFillOpts) {
 	}
 	mt := o.anyPool[c.Intn(len(o.anyPool))]
 	em := mt.New()
-	if depth > 0 {
+	{
 		o2 := o
 		o2.unknown = false
-		rtFill(c, em, depth-1, o2)
+		o2.dense = c.Bool()
+		d := depth - 1
+		if d < 1 {
+			d = 1
+		}
+		if *o2.budget < 12 {
+			extra := 12
+			o2.budget = &extra
+		}
+		rtFill(c, em, d, o2)
 	}
 	b, err := proto.MarshalOptions{AllowPartial: true, Deterministic: true}.Marshal(em.Interface())
 	if err != nil {
@@ -435,9 +448,77 @@ func rtFillWkt(c *Ctx, m protoreflect.Message, depth int, o rtFillOpts) bool {
 	return true
 }
 
+// rtEscPieces: characters the JSON / text encoders escape (quote, backslash, control characters, DEL),
+// characters other JSON encoders escape (< > & U+2028 U+2029, /), and multi-byte runes to put next to them.
+var rtEscPieces = []string{"\"", "\\", "\n", "\t", "\r", "\b", "\f", "\x00", "\x01", "\x1f", "\x7f", "<", ">", "&", "/", "'",
+	"\u2028", "\u2029", "\u0080", "\u009f", "é", "日本", "\U0001F600", "\ufffd", "a", "Z", " ", "\\u0041", "\\\"", "\\n"}
+
+// rtString: a valid UTF-8 string that (usually) needs escaping, with multi-byte runes next to the escapes.
+func rtString(c *Ctx) string {
+	var b []byte
+	for k := 1 + c.Intn(5); k > 0; k-- {
+		b = append(b, rtEscPieces[c.Intn(len(rtEscPieces))]...)
+	}
+	return string(b)
+}
+
+// rtNeedsEscape: the JSON encoder writes s with at least one escape sequence.
+func rtNeedsEscape(s string) bool {
+	for i := 0; i < len(s); i++ {
+		if s[i] < 0x20 || s[i] == '"' || s[i] == '\\' {
+			return true
+		}
+	}
+	return false
+}
+
+// rtCountEscaped counts the strings (field values, list elements, map keys and values) of m and of
+// everything reachable from it, inside Any values too, that are written with an escape.
+// inAny: only those inside the content of an Any.
+func rtCountEscaped(m protoreflect.Message, inside bool) (inAny int) {
+	rtWalk(m, func(x protoreflect.Message) bool {
+		if rtWkt(x.Descriptor()) == "Any" && x.Has(rtField(x, 1)) {
+			if em, _ := rtResolveAny(x); em != nil {
+				inAny += rtCountEscaped(em, true)
+			}
+			return false
+		}
+		if !inside {
+			return true
+		}
+		x.Range(func(fd protoreflect.FieldDescriptor, v protoreflect.Value) bool {
+			chk := func(fd protoreflect.FieldDescriptor, v protoreflect.Value) {
+				if fd.Kind() == protoreflect.StringKind && rtNeedsEscape(v.String()) {
+					inAny++
+				}
+			}
+			switch {
+			case fd.IsMap():
+				v.Map().Range(func(k protoreflect.MapKey, mv protoreflect.Value) bool {
+					chk(fd.MapKey(), k.Value())
+					chk(fd.MapValue(), mv)
+					return true
+				})
+			case fd.IsList():
+				for i := 0; i < v.List().Len(); i++ {
+					chk(fd, v.List().Get(i))
+				}
+			default:
+				chk(fd, v)
+			}
+			return true
+		})
+		return true
+	})
+	return
+}
+
 func rtScalar(c *Ctx, fd protoreflect.FieldDescriptor, o rtFillOpts) protoreflect.Value {
 	if fd.Kind() == protoreflect.EnumKind && fd.Enum().FullName() == "google.protobuf.NullValue" && !(o.unrep && c.Intn(10) == 0) {
 		return protoreflect.ValueOfEnum(0)
+	}
+	if fd.Kind() == protoreflect.StringKind && c.Intn(2) == 0 {
+		return protoreflect.ValueOfString(rtString(c))
 	}
 	if fd.Kind() == protoreflect.StringKind && !o.unrep {
 		return msgScalar(c, fd, false)
